@@ -365,7 +365,8 @@ class XRayTransform3D(LinearOperator):
                         slice_offset=slice_offset,
                     )
                 )
-                HTy.block_until_ready()  # prevent OOM
+                if not isinstance(HTy, jax.core.Tracer):
+                    HTy.block_until_ready()  # prevent OOM
 
         return HTy
 
